@@ -4,7 +4,7 @@ import random
 import string
 
 # every printable ASCII character a quoted text can hold verbatim (the quote itself and the line end excluded), the backslash included
-ASCII_TEXT = "".join(c for c in string.printable[:95] if c not in "'\n\r\x0b\x0c")
+ASCII_TEXT = "".join(c for c in string.printable[:95] if c not in "'\n\r\x0b\x0c") + "\t"  # a TAB inside a text is a character like any other
 import shutil
 import tempfile
 
@@ -102,6 +102,8 @@ def run(tier, seed):
     history = []
     fixed = [{"stmts": [["ascii", ASCII_TEXT], ["db", {"values": [1], "text": "1"}]], "start": 0x008000},  # every printable character at once (backslash, quotes, brackets, ;)
              {"stmts": [["ascii", "C:\\SNES\\rom.sfc"], ["ascii", "a\\b\\\\c"]], "start": 0x00FFF0},
+             {"stmts": [["ascii", "A\tB\t\tC"], ["db", {"values": [9, 4, 5], "text": "(1 + 2) * 3, 4, 5"}], ["dw", {"values": [0x12, 0x1234], "text": "(0x1200 >> 8) & 0xFF, (0x12 << 8) + 0x34"}],
+                        ["dl", {"values": [3, -1], "text": "(1 + 2), -1"}]], "start": 0x008000},
              # texts that look like something else to a helper shared with path directives: home-directory / environment / glob / escape syntax
              {"stmts": [["ascii", "~/SAVE 1"], ["ascii", "~"], ["ascii", "$HOME %PATH% *.bin"], ["ascii", "~root/x"]], "start": 0x008000}]
     for i in range(n):
